@@ -187,6 +187,21 @@ pub fn ok_buffer_sized_by_data(v: &[u32]) -> Vec<u32> {
     Vec::with_capacity(v.len())
 }
 
+// ---- C14-WINDOW control: a value duplicated by ptr::read while a closure runs ------------------------
+pub fn bad_replace_with<T, F: FnOnce(T) -> T>(dest: &mut T, f: F) {
+    unsafe {
+        let old = std::ptr::read(dest);
+        std::ptr::write(dest, f(old));
+    }
+}
+
+/// the same update without duplication
+pub fn ok_replace_option<T, F: FnOnce(T) -> T>(dest: &mut Option<T>, f: F) {
+    if let Some(old) = dest.take() {
+        *dest = Some(f(old));
+    }
+}
+
 pub mod par {
     pub mod collect_into {
         pub mod collect_into_core {
